@@ -74,8 +74,16 @@ theorem softmax_get (X : Nat → Option K) (j : Nat) :
 
 theorem toppRem_get (p : K) (X : Vec (Option K)) (i : Nat) :
     (toppRem n w p σ X).get i = true ↔
-      ∑ t ∈ range (i + 1), (softmaxN n w (fun i => X.get (σ i))).get t ≤ 1 - p := by
-  simp only [toppRem, Vec.tab_get, sumN_eq_sum, decide_eq_true_eq]
+      i + 1 ≠ n ∧ ∑ t ∈ range (i + 1), (softmaxN n w (fun i => X.get (σ i))).get t ≤ 1 - p := by
+  simp only [toppRem, Vec.tab_get, sumN_eq_sum]
+  split
+  · rename_i h; simp [h]
+  · rename_i h; simp [h]
+
+/-- the line `sorted_indices_to_remove[..., -1] = False`: the last sorted position is never flagged -/
+theorem toppRem_last (p : K) (X : Vec (Option K)) (hn : 0 < n) : (toppRem n w p σ X).get (n - 1) = false := by
+  simp only [toppRem, Vec.tab_get]
+  rw [if_pos (by omega)]
 
 theorem topP_get (p : K) (X : Vec (Option K)) (j : Nat) : (topPStage n w p σ X).get j =
     if p ≤ 0 ∨ 1 ≤ p then X.get j
@@ -298,8 +306,8 @@ theorem topP_le (j : Nat) : wb ((topPStage n w p σ X).get j) ≤ wb (X.get j) :
     · exact le_refl _
 
 /-- the last sorted position survives the top-p filter -/
-theorem topP_last_kept (hw : ExpLike w) (hσ : (p ≤ 0 ∨ 1 ≤ p) ∨ SortValid n X.get σ) (hn : 0 < n)
-    (hsome : (X.get (σ (n - 1))).isSome = true) :
+theorem topP_last_kept (_hw : ExpLike w) (hσ : (p ≤ 0 ∨ 1 ≤ p) ∨ SortValid n X.get σ) (hn : 0 < n)
+    (_hsome : (X.get (σ (n - 1))).isSome = true) :
     (topPStage n w p σ X).get (σ (n - 1)) = X.get (σ (n - 1)) := by
   rw [topP_get]
   split
@@ -313,12 +321,20 @@ theorem topP_last_kept (hw : ExpLike w) (hσ : (p ≤ 0 ∨ 1 ≤ p) ∨ SortVal
         obtain ⟨i, hi, hσi, hrem⟩ := hex
         have hi' : i = n - 1 := hσ.2.1 i hi (n - 1) (by omega) hσi
         subst hi'
-        rw [toppRem_get] at hrem
-        have h1 : n - 1 + 1 = n := by omega
-        rw [h1, softmax_sum_one w n hw _ (n - 1) (by omega) hsome] at hrem
-        apply hact
-        left; linarith
+        rw [toppRem_last w n σ p X hn] at hrem
+        exact Bool.false_ne_true hrem
       · rfl
+
+/-- **last_never_removed**: in exact arithmetic the line `sorted_indices_to_remove[..., -1] = False` is a
+no-op — for `top_p > 0` and a row with a finite entry the cumulative probability of the last sorted
+position is `1 > 1 - top_p`, so the comparison `cum <= 1 - top_p` never flags it anyway.  (In float32
+`1 - top_p` can round to `1.0`; that is what the line guards against.) -/
+theorem last_never_removed (hw : ExpLike w) (hp : 0 < p) (i0 : Nat) (hi0 : i0 < n)
+    (hsome : (X.get (σ i0)).isSome = true) :
+    ¬ (∑ t ∈ range (n - 1 + 1), (softmaxN n w (fun i => X.get (σ i))).get t ≤ 1 - p) := by
+  have h1 : n - 1 + 1 = n := by omega
+  rw [h1, softmax_sum_one w n hw _ i0 hi0 hsome]
+  intro h; linarith
 
 /-- mass of the pre-filter distribution on the support of the top-p output -/
 theorem topp_mass_core (hw : ExpLike w) (hσ : (p ≤ 0 ∨ 1 ≤ p) ∨ SortValid n X.get σ) (hp1 : p ≤ 1)
@@ -405,7 +421,7 @@ theorem topp_mass_core (hw : ExpLike w) (hσ : (p ≤ 0 ∨ 1 ≤ p) ∨ SortVal
           have hfil : (range n).filter (fun i => i < m + 1) = range (m + 1) := by
             ext i; simp only [Finset.mem_filter, Finset.mem_range]; omega
           rw [hfil]
-          have := (toppRem_get w n σ p X m).mp (by rw [← hrem]; exact hmrem)
+          have := ((toppRem_get w n σ p X m).mp (by rw [← hrem]; exact hmrem)).2
           exact this
         · have hnone : ∀ i ∈ range n, (if rem i = true then qs i else 0) = 0 := by
             intro i hi
